@@ -81,6 +81,16 @@ def main():
         if not cases:
             return
         res = vlib.run_pipeline(driver, cases, bs, tag=name, model_driver=model_driver)
+        if getattr(res, "crash", None):
+            cr = res.crash
+            rp = vlib.write_replay(pid, seed, dict(kind="oracle-fail", driver=driver, header=cr["header"], script=cr["script"], minimal=True,
+                                                   oracle=dict(clause="panic", meaning="the implementation crashed or hung the process on this script",
+                                                               detail=cr["stderr"][:1200]), stream=name))
+            print("oracle rejects: clause panic (process crashed or hung) script=%s" % " ; ".join(cr["script"])[:600])
+            print("VIOLATION property=%s replay=%s" % (pid, rp))
+            violations.append(("crash", "panic", rp))
+            exit_code = 1
+            return
         if res.errors:
             env_errors.extend(res.errors)
             return
